@@ -22,6 +22,9 @@ func Remainder(left, right value.Value) error {
 			} else if lv.IsNegativeInf || rv.IsNegativeInf {
 				lv.Value = 0
 				lv.IsNegativeInf = true
+			} else if rv.Value == 0 {
+				lv.IsNAN = true
+				return errors.WithStack(fmt.Errorf("division by zero"))
 			} else {
 				lv.Value %= rv.Value
 			}
@@ -37,6 +40,9 @@ func Remainder(left, right value.Value) error {
 			} else if lv.IsNegativeInf || rv.IsNegativeInf {
 				lv.Value = 0
 				lv.IsNegativeInf = true
+			} else if int64(rv.Value) == 0 {
+				lv.IsNAN = true
+				return errors.WithStack(fmt.Errorf("division by zero"))
 			} else {
 				lv.Value %= int64(rv.Value)
 			}
@@ -55,6 +61,9 @@ func Remainder(left, right value.Value) error {
 			} else if lv.IsNegativeInf || rv.IsNegativeInf {
 				lv.Value = 0
 				lv.IsNegativeInf = true
+			} else if rv.Value == 0 {
+				lv.IsNAN = true
+				return errors.WithStack(fmt.Errorf("division by zero"))
 			} else {
 				lv.Value = float64(int64(lv.Value) % rv.Value)
 			}
@@ -67,6 +76,9 @@ func Remainder(left, right value.Value) error {
 			} else if lv.IsNegativeInf || rv.IsNegativeInf {
 				lv.Value = 0
 				lv.IsNegativeInf = true
+			} else if int64(rv.Value) == 0 {
+				lv.IsNAN = true
+				return errors.WithStack(fmt.Errorf("division by zero"))
 			} else {
 				lv.Value = float64(int64(lv.Value) % int64(rv.Value))
 			}
@@ -78,10 +90,18 @@ func Remainder(left, right value.Value) error {
 		switch right.Type() {
 		case value.IntegerType: // RTIME %= INTEGER
 			rv := value.Unwrap[*value.Integer](right)
-			lv.Value %= (time.Duration(rv.Value) * time.Second)
+			d := time.Duration(rv.Value) * time.Second
+			if d == 0 {
+				return errors.WithStack(fmt.Errorf("division by zero"))
+			}
+			lv.Value %= d
 		case value.FloatType: // RTIME %= FLOAT
 			rv := value.Unwrap[*value.Float](right)
-			lv.Value %= (time.Duration(rv.Value) * time.Second)
+			d := time.Duration(rv.Value) * time.Second
+			if d == 0 {
+				return errors.WithStack(fmt.Errorf("division by zero"))
+			}
+			lv.Value %= d
 		default:
 			return errors.WithStack(fmt.Errorf("invalid division RTIME type, got %s", right.Type()))
 		}
